@@ -134,6 +134,21 @@ def ref_selected(h, sc):
     return True
 
 
+FINDING_V = 'C18-V-jsonpatch-library-emits-inapplicable-patch'
+
+
+def library_diff_is_wrong(src, dst):
+    """The listed finding V, identified without kopf: the third-party jsonpatch library, asked for the difference between the reviewed
+    object and the requested result, yields operations that its own applier cannot apply to the reviewed object, or that give
+    something else (seen with moves into lists that hold booleans and nested lists)."""
+    import jsonpatch
+    try:
+        out = jsonpatch.JsonPatch.from_diff(copy.deepcopy(src), copy.deepcopy(dst)).apply(copy.deepcopy(src))
+    except Exception:
+        return True
+    return out != dst
+
+
 ERR_RANK = {'admission': 0, 'perm': 1, 'temp': 2, 'err': 9}
 _SUBCLASSES = {}
 
@@ -296,11 +311,19 @@ def run_case(sc):
     try:
         got_obj = rfc.json_patch(obj, ops)
     except rfc.PatchError as e:
-        res.fail('C18/patch-does-not-apply', f'the returned patch {ops} does not apply to the reviewed object: {e}')
+        msg = f'the returned patch {ops} does not apply to the reviewed object: {e}'
+        if library_diff_is_wrong(obj, expected):
+            res.known.append({'id': FINDING_V, 'msg': msg})
+        else:
+            res.fail('C18/patch-does-not-apply', msg)
         got_obj = None
     if got_obj is not None and rfc.strip_empty(got_obj) != rfc.strip_empty(expected):
-        res.fail('C18/patch-result', f'returned ops {ops} give {rfc.strip_empty(got_obj)}; the requested changes {model} '
-                 f'(+fns {[h["fns"] for h in selected]}) give {rfc.strip_empty(expected)}')
+        msg = (f'returned ops {ops} give {rfc.strip_empty(got_obj)}; the requested changes {model} '
+               f'(+fns {[h["fns"] for h in selected]}) give {rfc.strip_empty(expected)}')
+        if library_diff_is_wrong(obj, expected):
+            res.known.append({'id': FINDING_V, 'msg': msg})
+        else:
+            res.fail('C18/patch-result', msg)
     _classify(res, sc, selected)
     res.summary = {'selected': [h['id'] for h in selected], 'allowed': rsp.get('allowed'), 'ops': ops[:6]}
     return res
